@@ -24,7 +24,7 @@ Part 3 (oracle), cross-thread object use: objects loaded in thread A's live sess
 """
 import itertools, json, os, threading, traceback
 
-from pony.orm import Database, Required, Optional, Set, Json, db_session, select, rollback, flush
+from pony.orm import Database, Required, Optional, Set, Json, db_session, select, rollback, flush, exists
 from pony.orm import core
 import ponyutil
 
@@ -118,6 +118,7 @@ class Env(object):
             b = Optional(int)
             lz = Optional(str, lazy=True)
             js = Optional(Json)
+            flag = Required(bool)
             ds = Set('D')
             ms = Set('M')
         class D(db.Entity):
@@ -133,7 +134,7 @@ class Env(object):
         db.generate_mapping(create_tables=True)
         with db_session:
             for i, n in enumerate(NAMES):
-                e = E(name=n, a=i, b=(None if i == 2 else 2 * i), lz='L%d' % i, js={'k': [i]})
+                e = E(name=n, a=i, b=(None if i == 2 else 2 * i), lz='L%d' % i, js={'k': [i]}, flag=(i % 2 == 0))
                 D(e=e, t='t%d' % i)
                 M(es=[e])
         db.disconnect()
@@ -194,6 +195,12 @@ def make_shapes(env):
     def r_hyb(n):
         f = hyb[n]
         return select(f(e) for e in E)
+    def r_sub(n):       # the pinned parameter sits inside a NESTED generator (sub-translator)
+        return select(e for e in E if exists(d for d in e.ds if d.t[:n] == 't'))
+    # the same argument-less text once as ordering, once as condition: three different cache keys
+    def f_ordtxt(q): return q.order_by("e.flag")
+    def f_filttxt(q): return q.filter("e.flag")
+    def f_wheretxt(q): return q.where("e.flag")
     def r_glob(G_SLICE):
         return select(glob_short(e) for e in E)
     def f_estart(q, k): return q.filter(lambda e: e.name[k:] != '')
@@ -216,6 +223,10 @@ def make_shapes(env):
     add('r_plain', r_plain, [('x', [0, 2, 4])], [], True, 'entity')
     add('r_hyb', r_hyb, [('n', [1, 2, 3])], [('n', STOP)], True, 'str', cacheable=False, hybrid=('n',), funcstale=True)
     add('r_glob', r_glob, [('G_SLICE', [G_SLICE])], [('G_SLICE', STOP)], True, 'str', hybrid=('G_SLICE',), funcstale=True)
+    add('r_sub', r_sub, [('n', [1, 2, 3, -1])], [('n', STOP)], True, 'entity')
+    add('f_ordtxt', f_ordtxt, [], [], False, 'entity')
+    add('f_filttxt', f_filttxt, [], [], False, 'entity')
+    add('f_wheretxt', f_wheretxt, [], [], False, 'entity')
     add('f_estart', f_estart, [('k', [0, 1, 2, 3])], [('k', START)], False, 'entity')
     add('f_sstart', f_sstart, [('k', [0, 1, 2, 3])], [('k', START)], False, 'str')
     add('f_where', f_where, [('y', [1, 3, 5])], [], False, 'entity')
@@ -477,6 +488,9 @@ def template_programs():
     P.append(('hybrid', [[rq('r_hyb', n=2), rq('r_stop', n=2)], [rq('r_hyb', n=3), rq('r_stop', n=3)]]))
     P.append(('hybrid-derived', [[rq('r_hyb', n=2), rq('f_noord', base=0)], [rq('r_hyb', n=2), rq('f_sstart', base=0, k=2), rq('f_noord', base=0)]]))
     P.append(('global-hybrid', [[rq('r_glob', G_SLICE=G_SLICE), rq('r_glob', G_SLICE=G_SLICE)], [rq('r_glob', G_SLICE=G_SLICE), rq('f_ordn', base=0)]]))
+    P.append(('subquery-slice', [[rq('r_sub', n=1), rq('r_sub', n=2)], [rq('r_sub', n=3)]]))
+    P.append(('text-order-vs-filter', [[rq('r_plain', x=0), rq('f_ordtxt', base=0)], [rq('r_plain', x=0), rq('f_filttxt', base=0), rq('f_wheretxt', base=0)]]))
+    P.append(('text-filter-vs-order', [[rq('r_plain', x=0), rq('f_wheretxt', base=0), rq('f_filttxt', base=0)], [rq('r_plain', x=0), rq('f_ordtxt', base=0)]]))
     P.append(('twice', [[rq('r_twice', n=1), rq('r_twice', n=2)], [rq('r_twice', n=2)]]))
     P.append(('none-values', [[rq('r_stop', n=None), rq('r_stop', n=0)], [rq('r_stop', n=-1), rq('r_both', m=None, n=2)]]))
     P.append(('three', [[rq('r_stop', n=1)], [rq('r_stop', n=2)], [rq('r_stop', n=3), rq('r_stop', n=1)]]))
